@@ -173,6 +173,8 @@ def match_signature(sig, clause, record, meta):
     """A known-finding signature: {'clause': <exact>, 'pred': <name of predicate in findings.py>}"""
     if sig.get('clause') and sig['clause'] != clause:
         return False
+    if sig.get('clauses') and clause not in sig['clauses']:
+        return False
     pred = sig.get('pred')
     if pred:
         from . import findings
